@@ -262,5 +262,5 @@ def run(tier, seed):
     from .. import gen
     SG = gen.scale_groups()
     uni = [s for s in gen.scale_scenarios() if s["steps"][-1][0].get("goal", {}).get("n") in ("=", "\\=")]
-    chk.machine_family("scale-unify", SG["arity"] + uni, {"budget_extra": 20000000}, max_steps=30000)
+    chk.machine_family("scale-unify", SG["arity"] + uni, {"budget_extra": 20000000, "must_complete": True}, max_steps=30000)
     return chk.finish(rule="one evaluation per (ordered term pair, stack of earlier unifications); each is run three ways (exhaust, close, drop); non-trivial = unifiable")
